@@ -380,15 +380,21 @@ class XsdElement(XsdComponent, ParticleMixin,
                 msg = _("circularity found for substitutionGroup %r")
                 self.parse_error(msg % substitution_group)
                 return
-            elif 'substitution' in head_element.block:
-                return
 
-        final = head_element.final
+        inherited_type = False
         if self.type.name == nm.XSD_ANY_TYPE and 'type' not in self.elem.attrib:
+            inherited_type = True
             if head_element.type.name != nm.XSD_ANY_TYPE:
                 # Set the type with head element's type for validate content
                 # ref: https://www.w3.org/TR/xmlschema-1/#cElement_Declarations
                 self._set_type(head_element.type)
+
+        if 'substitution' in head_element.block:
+            return  # the type is inherited from the head also if it can't be substituted
+
+        final = head_element.final
+        if inherited_type:
+            pass
         elif not self.type.is_derived(head_element.type):
             msg = _("{0!r} type is not of the same or a derivation "
                     "of the head element {1!r} type")
